@@ -385,7 +385,9 @@ var numberStrings = []string{"1", "12", " 12 ", "\t12\n", "-1", "- 1", "-", ".",
 	"1.5.2", "1..2", "٣", "1 ", "\r\n7\r\n", "-\t7", "0x1p4", "1d", "1f", "1e", "e1", ".e1", "0.", "-.", "+.5", "2147483648", "4294967296", "1000000000000000000000",
 	"0.5", "-0.5", "1.5", "-1.5", "2.5", "-2.5",
 	"\u00a05", "5\u00a0", "\u20037", "7\u3000", "\u00852", "\v3", "4\f", "\u00a0 6 \u00a0", "\ufeff8",
-	" -5", "\n\t-7.5\n", " -.5 ", "  -0", "\r-12.", " - 5", "-5 ", " -"}
+	" -5", "\n\t-7.5\n", " -.5 ", "  -0", "\r-12.", " - 5", "-5 ", " -",
+	// 16- and 17-digit integers: beyond 2^53 a digit-by-digit accumulation in a double rounds twice
+	"99999999999999999", "28264523581331114", "90071992547409931", "12345678901234567", "9007199254740993", "-99999999999999999", "18014398509481985", "4611686018427387905"}
 
 // A number as an expression: a literal when the value has a plain numeral, else a variable.
 func (g *ExprGen) NumLiteralText() string {
